@@ -320,8 +320,10 @@ _ADDED4 = {
 _ADDED5 = {
     "C01": " (CW1) serializers.h WriteInteger/ReadInteger hand the varint routine a value of T's signedness and of the routine's width (T itself only where sizeof(T) is that width); "
            "(CV1) a varint is assembled with the shift computed in the destination type; (SW1) no emitted C++ `case` of the binary/NDJSON/protocol generators falls through; "
-           "(PA1) registered here too.",
-    "C02": " (PT1) a sub-second remainder rendered into text by yardl_types.py is zero-padded to its full width.",
+           "(PA1) registered here too; (VC1) every literal the varint / zig-zag routines of coded_stream.h and _binary.py combine with a value is a constant of the encoding (7-bit groups, 0x80, one bit).",
+    "C02": " (PT1) a sub-second remainder rendered into text by yardl_types.py is zero-padded to its full width; (NL1, when nlohmann/json.hpp is installed) C++ ReadProtocolValue, on "
+           "every path: true only after the entry under the step's own name was converted into value and a used look-ahead line was reset; false only for a step that is not required, "
+           "with an unused look-ahead kept and a parsed line of a later step stored; handlers for more than out_of_range end in a throw.",
     "C03": " (CW1, CV1, ZZ1) see C01; (PT1) see C02; (PN1) registered here too: a JSON null written by the C++ writer is a value, not a missing step; (DB1) an enum/flags without "
            "`base:` is int32 in every back end.",
     "C04": " (A2, converse) source positions, annotations and version bookkeeping stay out of the schema JSON; (VS1) a function that follows SimpleType.ResolvedDefinition keys no map by "
@@ -339,7 +341,7 @@ _ADDED5 = {
     "C13": " (Q7) ParseYamlInDir obtains its file list from a recursive traversal.",
     "C14": " (DB1) see C03.",
     "C15": " (VS1, ZF1) see C04.",
-    "C16": " (PE3, extended) also in _ndjson.py, and on every path through the handler.",
+    "C16": " (PE3, extended) also in _ndjson.py, and on every path through the handler; (NL1) see C02.",
     "C17": " (CP1) the address handed to ReadBytes/WriteBytes adds pointer and offset in the same unit; (CB3) registered here too; (B6) see C05.",
     "C18": " (MK1) a memo map is written under the key expression it is looked up with.",
     "C20": " (T8) the package directory is put under watch without waiting for a generation to complete; (T9) the function the debounce timer runs reaches generateImpl through "
